@@ -57,7 +57,14 @@ var trackedStructs = map[string]bool{
 }
 var trackedPkgDirs = []string{"internal/server", "internal/workspace", "internal/include", "internal/cli"}
 var initEntries = map[string]bool{"server.NewServer": true, "server.Server.SetClient": true, "server.Server.Initialize": true}
-var goRoles = map[string]string{"server.Server.publishDiagnostics": "publish", "server.Server.refreshConfiguration": "refresh"}
+var goRoles = map[string]string{"server.Server.publishDiagnostics": "publish", "server.Server.publishDiagnosticsVersion": "publish",
+	"server.Server.refreshConfiguration": "refresh"}
+
+// ownedStructs: struct types of which ONE instance is owned by (only reachable through) a field of
+// another tracked struct, while all other instances are built privately and never written after
+// they are published.  Accesses are split into two locations: "T.f" when the object may be
+// the owned instance, "TDoc.f" when it cannot be (see wsFlow below).
+var ownedStructs = map[string]string{"include.ResolvedJournal": "Workspace.resolved"}
 
 const (
 	modeShared = 1
@@ -116,19 +123,20 @@ type pkgInfo struct {
 }
 
 type world struct {
-	fset     *token.FileSet
-	mod      string
-	repo     string
-	pkgs     map[string]*pkgInfo
-	order    []*pkgInfo
-	ext      types.ImporterFrom
-	typeErrs []string
-	fakes    map[string]*types.Package
-	funcs    map[*types.Func]*funcInfo
-	fieldOf  map[*types.Var]string // field object -> "Struct.field" for every named struct of the module
-	tracked  map[*types.Var]bool   // field belongs to a tracked struct
-	named    []*types.Named        // every named type of the module (interface dispatch)
-	unsup    []string
+	fset         *token.FileSet
+	mod          string
+	repo         string
+	pkgs         map[string]*pkgInfo
+	order        []*pkgInfo
+	ext          types.ImporterFrom
+	typeErrs     []string
+	fakes        map[string]*types.Package
+	funcs        map[*types.Func]*funcInfo
+	fieldOf      map[*types.Var]string // field object -> "Struct.field" for every named struct of the module
+	tracked      map[*types.Var]bool   // field belongs to a tracked struct
+	named        []*types.Named        // every named type of the module (interface dispatch)
+	unsup        []string
+	returnsOwned map[*types.Func]bool
 }
 
 func (w *world) Import(path string) (*types.Package, error) { return w.ImportFrom(path, w.repo, 0) }
@@ -205,12 +213,16 @@ func (w *world) load(path string) (*pkgInfo, error) {
 // ---------------------------------------------------------------- per-function facts
 
 type accessSite struct {
-	loc    string
-	write  bool
-	atomic bool
-	root   *types.Var // local variable / parameter the access goes through directly (x.f), or nil
-	held   held
-	pos    token.Pos
+	owned     bool   // field of an ownedStructs type
+	ownAlways bool   // the base expression may denote the owned instance in every context
+	ownIfCtx  bool   // ... only when the enclosing function was handed the owned instance
+	method    string // for atomic accesses: the sync method called (Load, Store, Delete, Range, ...)
+	loc       string
+	write     bool
+	atomic    bool
+	root      *types.Var // local variable / parameter the access goes through directly (x.f), or nil
+	held      held
+	pos       token.Pos
 }
 
 type argRef struct {
@@ -218,11 +230,13 @@ type argRef struct {
 }
 
 type callSite struct {
-	callee *types.Func
-	held   held
-	pos    token.Pos
-	isGo   bool
-	args   []argRef // index 0 = receiver, 1.. = parameters
+	ownAlways bool // some argument / the receiver may be the owned instance
+	ownIfCtx  bool // ... when the caller itself was handed it
+	callee    *types.Func
+	held      held
+	pos       token.Pos
+	isGo      bool
+	args      []argRef // index 0 = receiver, 1.. = parameters
 }
 
 type acqSite struct {
@@ -238,18 +252,20 @@ type litSite struct {
 }
 
 type funcInfo struct {
-	obj      *types.Func
-	key      string
-	decl     *ast.FuncDecl
-	p        *pkgInfo
-	accesses []accessSite
-	calls    []callSite
-	acqs     []acqSite
-	lits     []litSite
-	parent   map[ast.Node]ast.Node
-	params   []*types.Var // index 0 = receiver (may be nil)
-	cands    map[*types.Var]bool
-	isCtor   int // 0 unknown, 1 yes, 2 no, 3 in progress
+	obj        *types.Func
+	key        string
+	decl       *ast.FuncDecl
+	p          *pkgInfo
+	accesses   []accessSite
+	calls      []callSite
+	acqs       []acqSite
+	lits       []litSite
+	parent     map[ast.Node]ast.Node
+	params     []*types.Var // index 0 = receiver (may be nil)
+	cands      map[*types.Var]bool
+	ownLocals  map[*types.Var]bool // locals that may hold the owned instance
+	ownDerived map[*types.Var]bool // parameters of an owned type and locals assigned from them
+	isCtor     int                 // 0 unknown, 1 yes, 2 no, 3 in progress
 }
 
 func funcKey(f *types.Func) string {
@@ -645,8 +661,19 @@ func (a *fnAnalyzer) selector(x *ast.SelectorExpr, h held) {
 	if kind == "lock" {
 		return
 	}
+	method := ""
+	if p, ok := a.fi.parent[x].(*ast.SelectorExpr); ok && p.X == ast.Expr(x) && kind == "atomic" {
+		method = p.Sel.Name
+	}
+	owned, oa, oc := false, false, false
+	if a.w.isOwnedType(a.typeOf(x.X)) {
+		owned = true
+		oa, oc = a.w.ownExpr(a.fi, x.X)
+	}
 	a.fi.accesses = append(a.fi.accesses, accessSite{
-		loc: a.w.fieldOf[v], write: kind == "write" || kind == "atomic", atomic: kind == "atomic",
+		owned: owned, ownAlways: oa, ownIfCtx: oc,
+		method: method,
+		loc:    a.w.fieldOf[v], write: kind == "write" || kind == "atomic", atomic: kind == "atomic",
 		root: a.localVar(x.X), held: h.copy(), pos: x.Pos(),
 	})
 }
@@ -818,6 +845,17 @@ func (a *fnAnalyzer) call(c *ast.CallExpr, h held, isGo bool) {
 	}
 	for _, fn := range callees {
 		cs := callSite{callee: fn, held: h.copy(), pos: c.Pos(), isGo: isGo}
+		exprs := append([]ast.Expr{}, c.Args...)
+		if recv != nil {
+			exprs = append(exprs, recv)
+		}
+		for _, x := range exprs {
+			if a.w.isOwnedType(a.typeOf(x)) {
+				oa, oc := a.w.ownExpr(a.fi, x)
+				cs.ownAlways = cs.ownAlways || oa
+				cs.ownIfCtx = cs.ownIfCtx || oc
+			}
+		}
 		var rv *types.Var
 		if recv != nil {
 			rv = a.localVar(recv)
@@ -855,6 +893,171 @@ func (w *world) implementers(iface types.Type, method string) []*types.Func {
 		}
 	}
 	return out
+}
+
+// ---------------------------------------------------------------- owned instances
+
+func (w *world) isOwnedType(t types.Type) bool {
+	n, ok := deref(t).(*types.Named)
+	if !ok || n.Obj().Pkg() == nil {
+		return false
+	}
+	_, ok = ownedStructs[n.Obj().Pkg().Name()+"."+n.Obj().Name()]
+	return ok
+}
+
+// ownExpr: may e denote the owned instance (always / when the function was handed it)?
+func (w *world) ownExpr(fi *funcInfo, e ast.Expr) (always, ifCtx bool) {
+	info := fi.p.info
+	for {
+		switch p := e.(type) {
+		case *ast.ParenExpr:
+			e = p.X
+			continue
+		case *ast.StarExpr:
+			e = p.X
+			continue
+		case *ast.UnaryExpr:
+			if p.Op == token.AND {
+				e = p.X
+				continue
+			}
+		}
+		break
+	}
+	switch x := e.(type) {
+	case *ast.SelectorExpr:
+		if sel := info.Selections[x]; sel != nil && sel.Kind() == types.FieldVal {
+			if v, ok := sel.Obj().(*types.Var); ok {
+				for _, owner := range ownedStructs {
+					if w.fieldOf[v] == owner {
+						return true, false
+					}
+				}
+			}
+			return false, false // some other field: objects stored elsewhere are never the owned one (checked: ownStore)
+		}
+	case *ast.CallExpr:
+		var fn *types.Func
+		switch f := x.Fun.(type) {
+		case *ast.Ident:
+			fn, _ = info.Uses[f].(*types.Func)
+		case *ast.SelectorExpr:
+			if sel := info.Selections[f]; sel != nil {
+				fn, _ = sel.Obj().(*types.Func)
+			} else {
+				fn, _ = info.Uses[f.Sel].(*types.Func)
+			}
+		}
+		if fn != nil && w.returnsOwned[fn] {
+			return true, false
+		}
+		return false, false
+	case *ast.Ident:
+		if v, ok := info.Uses[x].(*types.Var); ok {
+			return fi.ownLocals[v], fi.ownDerived[v]
+		}
+		if v, ok := info.Defs[x].(*types.Var); ok {
+			return fi.ownLocals[v], fi.ownDerived[v]
+		}
+	}
+	return false, false
+}
+
+// ownFlow computes, to a fixpoint, which functions may return the owned instance and which
+// local variables may hold it (flow-insensitively), and reports places where it is stored
+// anywhere but in its owner field.
+func (w *world) ownFlow(fis []*funcInfo) {
+	w.returnsOwned = map[*types.Func]bool{}
+	for _, fi := range fis {
+		fi.ownLocals = map[*types.Var]bool{}
+		fi.ownDerived = map[*types.Var]bool{}
+		for _, pv := range fi.params {
+			if pv != nil && w.isOwnedType(pv.Type()) {
+				fi.ownDerived[pv] = true
+			}
+		}
+	}
+	for changed := true; changed; {
+		changed = false
+		for _, fi := range fis {
+			info := fi.p.info
+			assign := func(lhs, rhs ast.Expr) {
+				if !w.isOwnedType(fi.p.info.TypeOf(rhs)) {
+					return
+				}
+				oa, oc := w.ownExpr(fi, rhs)
+				if !oa && !oc {
+					return
+				}
+				if id, ok := lhs.(*ast.Ident); ok {
+					var v *types.Var
+					if d, ok := info.Defs[id].(*types.Var); ok {
+						v = d
+					} else if u, ok := info.Uses[id].(*types.Var); ok {
+						v = u
+					}
+					if v != nil && v.Pkg() != nil && v.Parent() != v.Pkg().Scope() {
+						if oa && !fi.ownLocals[v] {
+							fi.ownLocals[v] = true
+							changed = true
+						}
+						if oc && !fi.ownDerived[v] {
+							fi.ownDerived[v] = true
+							changed = true
+						}
+						return
+					}
+				}
+				// stored into a field, map, slice or package variable
+				if sel, ok := lhs.(*ast.SelectorExpr); ok {
+					if s := info.Selections[sel]; s != nil {
+						if v, ok := s.Obj().(*types.Var); ok {
+							for _, owner := range ownedStructs {
+								if w.fieldOf[v] == owner {
+									return
+								}
+							}
+						}
+					}
+				}
+				msg := "owned object stored outside its owner field at " + w.pos(lhs.Pos())
+				for _, u := range w.unsup {
+					if u == msg {
+						return
+					}
+				}
+				w.unsup = append(w.unsup, msg)
+			}
+			ast.Inspect(fi.decl.Body, func(n ast.Node) bool {
+				switch n := n.(type) {
+				case *ast.AssignStmt:
+					if len(n.Lhs) == len(n.Rhs) {
+						for i := range n.Lhs {
+							assign(n.Lhs[i], n.Rhs[i])
+						}
+					}
+				case *ast.ValueSpec:
+					if len(n.Names) == len(n.Values) {
+						for i := range n.Names {
+							assign(n.Names[i], n.Values[i])
+						}
+					}
+				case *ast.ReturnStmt:
+					for _, r := range n.Results {
+						if !w.isOwnedType(info.TypeOf(r)) {
+							continue
+						}
+						if oa, _ := w.ownExpr(fi, r); oa && !w.returnsOwned[fi.obj] {
+							w.returnsOwned[fi.obj] = true
+							changed = true
+						}
+					}
+				}
+				return true
+			})
+		}
+	}
 }
 
 // ---------------------------------------------------------------- freshness
@@ -1175,9 +1378,9 @@ func (w *world) isConstructor(fn *types.Func) bool {
 // ---------------------------------------------------------------- main
 
 type rowKey struct {
-	loc, role    string
-	write        bool
-	locks        string
+	loc, role     string
+	write         bool
+	locks         string
 	atomic, fresh bool
 }
 
@@ -1289,6 +1492,7 @@ func main() {
 		fis = append(fis, fi)
 	}
 	sort.Slice(fis, func(i, j int) bool { return fis[i].key < fis[j].key })
+	w.ownFlow(fis)
 	for _, fi := range fis {
 		a := &fnAnalyzer{w: w, fi: fi}
 		a.stmts(fi.decl.Body.List, held{})
@@ -1401,22 +1605,25 @@ func main() {
 		fn   *types.Func
 		role string
 		held string
+		own  bool
 	}
 	type ctxT struct {
 		fn   *funcInfo
 		role string
 		held held
+		own  bool // the function may have been handed the owned instance of an ownedStructs type
 	}
 	seen := map[ctxKey]bool{}
 	var work []ctxT
-	push := func(fi *funcInfo, role string, h held) {
-		k := ctxKey{fi.obj, role, h.String()}
+	pushOwn := func(fi *funcInfo, role string, h held, own bool) {
+		k := ctxKey{fi.obj, role, h.String(), own}
 		if seen[k] {
 			return
 		}
 		seen[k] = true
-		work = append(work, ctxT{fi, role, h})
+		work = append(work, ctxT{fi, role, h, own})
 	}
+	push := func(fi *funcInfo, role string, h held) { pushOwn(fi, role, h, false) }
 	for _, fi := range fis {
 		if initEntries[fi.key] {
 			push(fi, "init", held{})
@@ -1449,6 +1656,10 @@ func main() {
 		reached[c.fn.obj] = true
 		for _, ac := range c.fn.accesses {
 			hh := union(c.held, ac.held)
+			if ac.owned && !(ac.ownAlways || (c.own && ac.ownIfCtx)) {
+				// an instance that is certainly not the owned one
+				ac.loc = strings.Replace(ac.loc, ".", "Doc.", 1)
+			}
 			k := rowKey{loc: ac.loc, role: c.role, write: ac.write, locks: hh.String(), atomic: ac.atomic,
 				fresh: freshAt(c.fn, ac.root, ac.pos, paramFresh)}
 			rows[k] = append(rows[k], fmt.Sprintf("%s %s", c.fn.key, w.pos(ac.pos)))
@@ -1484,9 +1695,12 @@ func main() {
 				continue
 			}
 			if !ok {
+				if cs.ownAlways || (c.own && cs.ownIfCtx) {
+					w.unsup = append(w.unsup, "owned object passed to a function outside the module at "+w.pos(cs.pos))
+				}
 				continue
 			}
-			push(callee, c.role, union(c.held, cs.held))
+			pushOwn(callee, c.role, union(c.held, cs.held), cs.ownAlways || (c.own && cs.ownIfCtx))
 		}
 	}
 
@@ -1508,7 +1722,7 @@ func main() {
 			}
 			seenF[f.obj] = true
 			for _, ac := range f.accesses {
-				if ac.loc == "Server.resolved" {
+				if ac.loc == "Server.resolved" && (ac.method == "Load" || ac.method == "Range" || ac.method == "LoadOrStore" || ac.method == "") {
 					hit = true
 				}
 			}
@@ -1714,7 +1928,7 @@ func main() {
 	fmt.Fprintf(&b, "/-- go/types errors while loading the packages (must be 0: the call graph and the field\n    resolution depend on complete type information) -/\ndef typeErrors : Nat := %d\n\n", len(w.typeErrs))
 	fmt.Fprintf(&b, "/-- cmd/hledger-lsp: no AsyncHandler, no go statement: the jsonrpc2 read loop calls the handler inline -/\ndef serialHandler : Bool := %s\n", boolS(serial))
 	fmt.Fprintf(&b, "/-- cmd/hledger-lsp main: NewServer and SetClient come before conn.Go -/\ndef setClientBeforeServe : Bool := %s\n\n", boolS(setClientFirst))
-	fmt.Fprintf(&b, "/-- exported methods of *Server from which an access to Server.resolved is reachable without passing a go statement -/\ndef resolvedReaders : List String := %s\n\n", strList(resolvedReaders, 0))
+	fmt.Fprintf(&b, "/-- exported methods of *Server from which a read of Server.resolved (Load / Range) is reachable without passing a go statement -/\ndef resolvedReaders : List String := %s\n\n", strList(resolvedReaders, 0))
 	var unreached []string
 	for _, fi := range fis {
 		if fi.p.tracked && !reached[fi.obj] && len(fi.accesses) > 0 {
